@@ -29,6 +29,7 @@ func init() {
 	ruleText["R03.8"] = "in the cases of the representability function that round through constant.Float32Val/Float64Val (float and complex kinds), every return that is not the constant false derives its value from math.IsInf"
 	ruleText["R03.9"] = "a comparison of reflect.Type.Bits() with a constant, under a guard isComplex/isFloat/isInt/isUint on the same type, uses a width kinds of that class can have (64/128, 32/64, 8..64)"
 	ruleText["R03.10"] = "every boolean predicate whose truth leads to the 'division by zero' error calls constant.Sign and converts no reflect.Value / constant to a machine number"
+	ruleText["R03.11"] = "in arrayTypeLen the index of an element without key is not computed from the variable whose final value + 1 is returned (the running maximum): it follows the previous element"
 	ruleText["R03.7"] = "no assignment in package interp has the form *p = v with p of type *itype: a node's type is changed by replacing the pointer, never by overwriting the shared type object"
 	ruleText["R03.6"] = "in the AST builder, the value of an INT, FLOAT, IMAG or STRING literal is constant.MakeFromLiteral(lit.Value, lit.Kind, 0) on every path (go/constant's parser defines the exact value of a literal)"
 	ruleText["R03.5"] = "every function assigning scope.iota does so in an if/else that resets it to 0 when the spec is the last child of its declaration and increments it otherwise; all such sites use the same condition"
@@ -51,6 +52,7 @@ func runC03(c *Config, r *Report) {
 	c03R8(ic, r)
 	c03R9(ic, r)
 	c03R10(ic, r)
+	c03R11(ic, r)
 	c03R5(ic, r)
 	c03R6(ic, r)
 	c03R7(ic, r)
@@ -1196,5 +1198,72 @@ func c03R10(ic *IC, r *Report) {
 		}
 		r.Check(exact && len(machine) == 0, "R03.10", funcName(fi.Decl)+"/zero-divisor-decided-exactly", ic.pos(fi.Decl.Pos()), "the zero test uses constant.Sign on the exact value",
 			funcName(fi.Decl)+", whose truth makes the type checker report a division by zero, "+map[bool]string{true: "converts the constant to a machine number (" + strings.Join(machine, ", ") + ")", false: "does not use constant.Sign"}[len(machine) > 0]+": a non-zero divisor below the smallest float64 underflows to 0 and the valid constant expression 1e-390 / 1e-400 is rejected")
+	}
+}
+
+// c03R11: the length of [...]T{...} is one more than the highest element index, where an element
+// without key takes the index *following the previous element* (not the highest index so far):
+// [...]int{5: 1, 2: 3, 4} has length 6. In the function computing that length, the index
+// given to an unkeyed element is not derived from the variable whose final value yields the
+// result (the running maximum) - as the literal generator does, it follows a variable that is
+// assigned for every element.
+func c03R11(ic *IC, r *Report) {
+	fi := ic.fn(r, "arrayTypeLen")
+	if fi == nil {
+		return
+	}
+	info := ic.Info
+	// the running maximum: the variable of the final `return V + 1`
+	var maxVar types.Object
+	ast.Inspect(fi.Decl.Body, func(m ast.Node) bool {
+		rs, ok := m.(*ast.ReturnStmt)
+		if !ok || len(rs.Results) < 1 {
+			return true
+		}
+		if be, ok := unparen(rs.Results[0]).(*ast.BinaryExpr); ok && be.Op == token.ADD {
+			if id := identOf(be.X); id != nil {
+				maxVar = info.ObjectOf(id)
+			}
+		}
+		return true
+	})
+	if maxVar == nil {
+		r.Errorf("R03.11: the running maximum of arrayTypeLen (return <max> + 1) was not identified")
+		return
+	}
+	n := 0
+	ast.Inspect(fi.Decl.Body, func(m ast.Node) bool {
+		ifs, ok := m.(*ast.IfStmt)
+		if !ok {
+			return true
+		}
+		// the branch taken for an element without key: cond `c.kind != keyValueExpr`
+		be, ok := unparen(ifs.Cond).(*ast.BinaryExpr)
+		if !ok || be.Op != token.NEQ {
+			return true
+		}
+		if id := identOf(be.Y); id == nil || id.Name != "keyValueExpr" {
+			return true
+		}
+		n++
+		fromMax := ""
+		ast.Inspect(ifs.Body, func(k ast.Node) bool {
+			as, ok := k.(*ast.AssignStmt)
+			if !ok || len(as.Rhs) != 1 {
+				return true
+			}
+			if b2, ok := unparen(as.Rhs[0]).(*ast.BinaryExpr); ok && b2.Op == token.ADD {
+				if id := identOf(b2.X); id != nil && info.ObjectOf(id) == maxVar {
+					fromMax = types.ExprString(as.Lhs[0]) + " = " + types.ExprString(as.Rhs[0]) + " at " + ic.pos(as.Pos())
+				}
+			}
+			return true
+		})
+		r.Check(fromMax == "", "R03.11", "arrayTypeLen/unkeyed-element-follows-the-previous-one", ic.pos(ifs.Pos()), "the index of an unkeyed element is not derived from the running maximum",
+			"arrayTypeLen gives an element without key the index following the highest index so far ("+fromMax+") instead of the index following the previous element: len([...]int{5: 1, 2: 3, 4}) is 7 where the Go specification gives 6, and the array type differs from the one the literal generator fills")
+		return true
+	})
+	if n == 0 {
+		r.Errorf("R03.11: the unkeyed-element branch (c.kind != keyValueExpr) of arrayTypeLen was not found")
 	}
 }
